@@ -98,6 +98,8 @@ class Universe:
         item_t = {"self": str, "selfint": int, "tuple": tuple, "list": list}.get(self.name) or env()["It"]
         key_t = int if self.name == "selfint" else str
         try:
+            if self.name == "tuple" and not (len(x) == 2 and isinstance(x[1], int)):
+                return False  # (typed as Tuple[str, int])
             return isinstance(x, item_t) and isinstance(self.model_key(x), key_t)
         except Exception:
             return False
@@ -105,13 +107,14 @@ class Universe:
     def alias(self):
         KS = env()["KeyedSet"]
         # ("self": the ITEM type also admits floats - the bad item 7.5 is refused for its key, which is no str)
-        return {"self": KS[typing.Union[str, float], str], "selfint": KS[int, int], "tuple": KS[tuple, str], "list": KS[list, str], "spec": KS[env()["It"], str]}[self.name]
+        return {"self": KS[typing.Union[str, float], str], "selfint": KS[int, int], "tuple": KS[typing.Tuple[str, int], str], "list": KS[list, str], "spec": KS[env()["It"], str]}[self.name]
 
     def bad_items(self):
         return {
             "self": [7.5],
             "selfint": ["zz"],
-            "tuple": [(99, 0), "zz"],
+            # (the last two are ill-typed in their PAYLOAD, under keys that may well be present already)
+            "tuple": [(99, 0), "zz", ("", "zz"), ("b", "zz")],
             "list": [[99, 0], ("a", 0)],
             "spec": ["zz"],
         }[self.name]
@@ -384,7 +387,7 @@ def run_case(ctx, case):
                 return
             elif name in BINARY_NEW + BINARY_CMP + BINARY_INPLACE:
                 kind = op[1][0]
-                if kind == "setdup" and enforce:
+                if kind == "setdup" and enforce and name != "isub":
                     continue  # (under enforcement membership also asks for an equal payload: one key with two payloads has no key-only reading)
                 if kind in ("set", "fset", "setdup") and not u.hashable and op[1][1]:
                     continue  # (a built-in set cannot hold unhashable items - but the empty built-in set is a legal operand)
@@ -499,9 +502,17 @@ def run_case(ctx, case):
                                 del m[k]
                     elif name == "isub":
                         s -= other
-                        for k in list(m):
-                            if k in kb:
-                                del m[k]
+                        if kind == "setdup":
+                            # -= discards every element of the operand, one by one, by the membership rule (under enforcement: a
+                            # stored item goes only if the operand holds an EQUAL one - which it may, next to unequal ones)
+                            for x in oitems:
+                                kx = u.model_key(x)
+                                if kx in m and (not enforce or m[kx] == x):
+                                    del m[kx]
+                        else:
+                            for k in list(m):
+                                if k in kb:
+                                    del m[k]
                     else:
                         s ^= other
                         for k, x in om.items():
@@ -563,6 +574,9 @@ def all_ops(u, typed, maxn_operand):
                 ops.append(["ior_refused", [[ki, p]], b])
                 ops.append(["ior_refused", [[(ki + 1) % u.nkeys, 0], [ki, p]], b])
     if len(u.payloads) > 1:
+        for ki in range(u.nkeys):
+            ops.append(["isub", ["setdup", [[ki, 0], [ki, 1]]]])
+            ops.append(["isub", ["setdup", [[ki, 1], [ki, 0], [(ki + 1) % u.nkeys, 0]]]])
         for name in BINARY_CMP:
             for ki in range(u.nkeys):
                 ops.append([name, ["setdup", [[ki, 0], [ki, 1]]]])
